@@ -1260,6 +1260,24 @@ class Gen:
             if r.random() < 0.5:
                 s1, s2 = s2, s1
         a, b, c = self.out() + "i1", self.out() + "i2", self.out() + "i3"
+        if "Vals" in self.cfg["leaf_classes"] and r.random() < 0.25:
+            # lookalike history: an ==-equal value of another type is met FIRST, the content is created and dropped, a
+            # few hundred other values go by (whatever was remembered about the first is gone), the content comes again
+            o = r.choice(self.cfg["origins"])
+            one = r.choice([0, 1])
+            s0 = {"c": "Vals", "p": {"s": "v", "i": one}, "ch": {}, "o": o}
+            s1 = {"c": "Vals", "p": {"s": "v", "f": float(one), "flag": bool(one)} if r.random() < 0.5 else {"s": "v", "ti": [], "g": float(one)}, "ch": {}, "o": o}
+            z = self.out() + "i0"
+            self.script = [
+                lambda ac: {"op": "construct", "spec": s0, "out": z},
+                lambda ac: {"op": "construct", "spec": s1, "out": a},
+                lambda ac: {"op": "drop", "h": a} if a in w.handles else None,
+                lambda ac: {"op": "gc"},
+                lambda ac: {"op": "obs", "what": "churn", "n": {"h": z, "path": []}, "count": r.choice([280, 600])} if z in w.handles else None,
+                lambda ac: {"op": "construct", "spec": s1, "out": c},
+            ]
+            w.stats.probes["id_repeat_script_started"] += 1
+            return
         self.script = [
             lambda ac: {"op": "construct", "spec": s1, "out": a},
             lambda ac: {"op": "drop", "h": a} if a in w.handles else None,
